@@ -893,6 +893,188 @@ def hilbert_histories(ctx, rng, nprng, quick):
         run_hilbert_case(ctx, spec, reqs, impl)
     ctx.correspond("Lean HNet model == HilbertClimateNetwork (directed / undirected, phase mask, "
                    "set_directed histories)", reqs, impl)
+    ctx.correspond("generated method scripts (gen_C09) == HilbertClimateNetwork",
+                   ["s" + r for r in reqs], impl)
+
+
+
+def no_setting(ctx, rng):
+    """construction with neither threshold nor link density: the generated `__init__` script
+    raises (no network is generated, `adjacency=self.adjacency` fails) — and so must the class"""
+    from pyunicorn.climate import ClimateNetwork
+    reqs, impl = [], []
+    for _ in range(6):
+        N = rng.choice([2, 3, 5])
+        S0, _t = gen_sim(rng, N)
+        grid = gen_grid(rng, N)
+        d32, _d = damp_of(grid)
+        nl, directed = rng.random() < 0.5, rng.random() < 0.5
+        try:
+            with contextlib.redirect_stdout(io.StringIO()):
+                net = ClimateNetwork(grid, S0, non_local=nl, directed=directed, silence_level=3)
+            got = state_of(net)
+        except Exception as e:  # noqa
+            got = "raise:" + type(e).__name__
+        reqs.append("shist {} {} {} {} {} - - -".format(N, int(directed), int(nl), enc_mat(S0),
+                                                        enc_mat(d32)))
+        impl.append(got)
+        ctx.count("constructor without threshold and link_density")
+    ctx.correspond("generated __init__ script == ClimateNetwork(grid, S) without threshold and "
+                   "link density (raises)", reqs, impl)
+
+
+def nan_similarities(ctx, rng, quick):
+    """oracle only: similarity matrices with NaN entries (missing estimates).  `NaN > θ` is
+    false, so a NaN pair is never linked; every finite pair follows the link rule; n_links and
+    link_density stay consistent; a prescribed density is never exceeded (NaNs sort last, a NaN
+    threshold gives the empty network)"""
+    for _ in range(40 if quick else 400):
+        N = rng.choice([2, 3, 4, 5, 6])
+        S0, _t = gen_sim(rng, N)
+        k = rng.choice([1, 1, 2, N, N * N])
+        for _k in range(k):
+            i, j = rng.randrange(N), rng.randrange(N)
+            S0[i, j] = np.nan
+            if rng.random() < 0.6:
+                S0[j, i] = np.nan
+        grid = gen_grid(rng, N)
+        directed = rng.random() < 0.4
+        M = N * (N - 1)
+        init = ("T", gen_threshold(rng, np.nan_to_num(S0))) if rng.random() < 0.4 else \
+            ("D", gen_density(rng, N))
+        ops = [o for o in gen_ops(rng, np.nan_to_num(S0), N, rng.choice([0, 1, 3])) if o[0] != "L"]
+        rep = {"kind": "nan", "similarity": [[None if v != v else v for v in row]
+                                             for row in S0.tolist()],
+               "directed": directed, "init": list(init), "ops": [op_repr(o) for o in ops]}
+        try:
+            with np.errstate(all="ignore"):
+                net = build(grid, S0, init, False, directed, rng.choice(["f64", "f32"]))
+        except Exception as e:  # noqa
+            ctx.fail({"class": "ClimateNetwork", "kind": "raises", "input": "nan-similarity",
+                      "error": type(e).__name__},
+                     f"constructor raised {type(e).__name__} on a similarity matrix with NaN "
+                     "entries", rep)
+            continue
+        absS = np.abs(S0)
+        for n, op in enumerate([init] + ops):
+            if n:
+                try:
+                    with np.errstate(all="ignore"):
+                        apply_op(net, op)
+                except Exception as e:  # noqa
+                    ctx.fail({"class": "ClimateNetwork", "kind": "raises", "input": "nan-similarity",
+                              "error": type(e).__name__},
+                             f"setter {op_repr(op)} raised {type(e).__name__} on a similarity "
+                             "matrix with NaN entries", dict(rep, call_index=n))
+                    break
+            A = np.asarray(net.adjacency)
+            th = float(net.threshold())
+            exp = np.array([[int(i != j and absS[i, j] == absS[i, j] and th == th
+                                 and fr(absS[i, j]) > fr(th)) for j in range(N)] for i in range(N)])
+            nz = int(np.count_nonzero(A))
+            what = None
+            if not np.array_equal(A, exp):
+                what = "adjacency differs from `i != j and |S| > threshold` (NaN never linked)"
+            elif int(net.n_links) != (nz if directed else nz // 2):
+                what = f"n_links={net.n_links} but {nz} non-zero entries"
+            elif abs(float(net.link_density) - nz / M) > 1e-12:
+                what = f"link_density={net.link_density} but adjacency gives {nz}/{M}"
+            elif op[0] == "D" and nz > fr(op[1]) * M + Fraction(1, 10 ** 9):
+                what = f"requested link density {op[1]} but realised {nz}/{M}"
+            if what:
+                ctx.fail({"class": "ClimateNetwork", "kind": "nan-similarity", "op": op[0]}, what,
+                         dict(rep, call_index=n, threshold=repr(th), adjacency=A.tolist()))
+                break
+        ctx.count("nan-similarity histories")
+        ctx.case(("nan", np.nan_to_num(S0, nan=-7.0).tobytes().hex(), directed, op_key(init),
+                  str(rep["ops"])), True, None)
+
+
+def density_function(ctx, rng, quick):
+    """oracle only: `link_density_function(n_bins)` = cumulative histogram of *all* N*N stored
+    similarities: starts at 0, non-decreasing, below 1, entry i = fraction of entries below the
+    i-th bin edge"""
+    for _ in range(30 if quick else 300):
+        N = rng.choice([2, 3, 4, 6, 9])
+        S0, _t = gen_sim(rng, N)
+        net = build(gen_grid(rng, N), S0, ("T", 0.5), False, rng.random() < 0.5)
+        nb = rng.choice([1, 2, 3, 5, 10, 33])
+        absS = np.abs(S0)
+        if float(absS.max()) == float(absS.min()):
+            ctx.count("link_density_function: constant matrix (numpy widens the range)")
+        with contextlib.redirect_stdout(io.StringIO()):
+            ldf, edges = net.link_density_function(nb)
+        ldf, edges = np.asarray(ldf, dtype=float), np.asarray(edges, dtype=float)
+        what = None
+        if len(ldf) != nb or len(edges) != nb + 1:
+            what = f"lengths {len(ldf)}, {len(edges)} for n_bins={nb}"
+        elif ldf[0] != 0 or np.any(np.diff(ldf) < 0) or ldf[-1] > 1 + 1e-12:
+            what = f"not a cumulative distribution: {ldf.tolist()}"
+        else:
+            w = (edges[-1] - edges[0]) / nb
+            for i in range(nb):
+                lo = np.count_nonzero(absS < edges[i] - 1e-6 * max(w, 1e-300))
+                hi = np.count_nonzero(absS < edges[i] + 1e-6 * max(w, 1e-300))
+                if not (lo / (N * N) - 1e-9 <= ldf[i] <= hi / (N * N) + 1e-9):
+                    what = (f"entry {i} is {ldf[i]} but {lo}..{hi} of {N * N} similarities lie "
+                            f"below the bin edge {edges[i]}")
+                    break
+        if what:
+            ctx.fail({"class": "ClimateNetwork", "kind": "link_density_function"}, what,
+                     {"similarity": S0.tolist(), "n_bins": nb, "got": ldf.tolist(),
+                      "edges": edges.tolist()})
+        ctx.count("link_density_function")
+
+
+def coupled_blocks(ctx, rng, quick):
+    """oracle only: the layer / cross-layer observables of CoupledClimateNetwork follow the
+    thresholded blocks of the similarity after every setter (theorem cross_link_iff)"""
+    import pyunicorn.climate as C
+    for _ in range(30 if quick else 300):
+        N1, N2 = rng.choice([1, 2, 3, 4]), rng.choice([1, 2, 3, 4])
+        g1, g2 = gen_grid(rng, N1), gen_grid(rng, N2)
+        S0, _t = gen_sim(rng, N1 + N2)
+        directed = rng.random() < 0.4
+        init = ("T", gen_threshold(rng, S0)) if rng.random() < 0.5 else ("D", gen_density(rng, N1 + N2))
+        ops = [o for o in gen_ops(rng, S0, N1 + N2, rng.choice([0, 2, 4])) if o[0] != "L"]
+        rep = {"kind": "coupled-blocks", "similarity": S0.tolist(), "N1": N1, "N2": N2,
+               "directed": directed, "init": list(init), "ops": [op_repr(o) for o in ops]}
+        try:
+            with contextlib.redirect_stdout(io.StringIO()):
+                net = C.CoupledClimateNetwork(
+                    g1, g2, S0.copy(), directed=directed, silence_level=3,
+                    **({"threshold": init[1]} if init[0] == "T" else {"link_density": init[1]}))
+        except Exception as e:  # noqa
+            ctx.fail({"class": "CoupledClimateNetwork", "kind": "raises", "call": "constructor",
+                      "error": type(e).__name__}, f"constructor raised {type(e).__name__}", rep)
+            continue
+        absS = [[abs(fr(v)) for v in row] for row in S0]
+        for n, op in enumerate([init] + ops):
+            with contextlib.redirect_stdout(io.StringIO()):
+                if n:
+                    apply_op(net, op)
+                th = fr(net.threshold())
+                got = (np.asarray(net.cross_layer_adjacency()).tolist(),
+                       np.asarray(net.adjacency_1()).tolist(), np.asarray(net.adjacency_2()).tolist(),
+                       # (documented as not implemented for directed networks)
+                       -1 if directed else int(net.number_cross_layer_links()),
+                       -1.0 if directed else float(net.cross_link_density()))
+            cross = [[int(absS[i][N1 + j] > th) for j in range(N2)] for i in range(N1)]
+            a1 = [[int(i != j and absS[i][j] > th) for j in range(N1)] for i in range(N1)]
+            a2 = [[int(i != j and absS[N1 + i][N1 + j] > th) for j in range(N2)] for i in range(N2)]
+            nc = sum(map(sum, cross))
+            exp = (cross, a1, a2, -1 if directed else nc, -1.0 if directed else nc / (N1 * N2))
+            for lab, g, e in zip(("cross_layer_adjacency", "adjacency_1", "adjacency_2",
+                                  "number_cross_layer_links", "cross_link_density"), got, exp):
+                if (abs(g - e) > 1e-12) if isinstance(e, float) else (g != e):
+                    ctx.fail({"class": "CoupledClimateNetwork", "kind": "cross-block",
+                              "observable": lab},
+                             f"{lab} = {g} after {op_repr(op)} but thresholding the similarity "
+                             f"block at {th} gives {e}", dict(rep, call_index=n))
+                    break
+        ctx.count("coupled cross-block histories")
+        ctx.case(("coupled", S0.tobytes().hex(), N1, N2, directed, op_key(init), str(rep["ops"])),
+                 True, None)
 
 
 
@@ -1143,6 +1325,11 @@ def run(ctx):
             exercise(ctx, make_case(rng, N, 2), reqs, impl, kept)
     bad, model = ctx.correspond(
         "Lean Similarity model == ClimateNetwork (constructor + setter histories)", reqs, impl)
+    # the same histories through the interpreter of the method scripts regenerated from the
+    # source by translate/gen_C09.py (Model/SimilarityScript.lean)
+    ctx.correspond("generated method scripts (gen_C09) == ClimateNetwork (constructor + setter "
+                   "histories)", ["s" + r for r in reqs], impl)
+    no_setting(ctx, rng)
     # ---------------- subclasses deriving the similarity from data ---------------------------
     nprng = np.random.RandomState(rng.randrange(2 ** 31))
     sreqs, simpl, skept = [], [], []
@@ -1160,6 +1347,8 @@ def run(ctx):
                 exercise(ctx, case, sreqs, simpl, skept)
     ctx.correspond("Lean Similarity model == subclasses of ClimateNetwork on their stored "
                    "similarity", sreqs, simpl)
+    ctx.correspond("generated method scripts (gen_C09) == subclasses of ClimateNetwork",
+                   ["s" + r for r in sreqs], simpl)
     ctx.extra["histories_compared"] = len(reqs)
     ctx.extra["states_compared"] = sum(s.count(";") + 1 for s in impl)
 
@@ -1203,3 +1392,6 @@ def run(ctx):
     shared_arrays(ctx, rng, quick)
     regenerate_histories(ctx, rng, nprng, quick)
     hilbert_histories(ctx, rng, nprng, quick)
+    nan_similarities(ctx, rng, quick)
+    density_function(ctx, rng, quick)
+    coupled_blocks(ctx, rng, quick)
